@@ -20,11 +20,14 @@ import os
 import warnings
 
 from vlib import common as V
-from vlib import lexcorr, transcorr
+from vlib import lexcorr, nasty, transcorr
 
 PROCS = min(V.NPROC, int(os.environ.get("VERIF_C06_PROCS", "8")))
 ESC = ["\\", "`", '"', "'", "\n", "a", "n", "x", "0", "λ"]
 _G = None
+# the sources whose literal text (string constants, regex patterns) is harvested on every run into
+# the fuzzing dictionary: everything between the program text and the generated Python
+DICT_FILES = ["vyxal/lexer.py", "vyxal/parse.py", "vyxal/transpile.py", "vyxal/helpers.py"]
 
 # a small stand-in dictionary for the correspondence of uncompress_dict (the model is
 # parametric in the dictionary; the real one has 20k+ words)
@@ -195,7 +198,7 @@ def correspondence(env, strings, tables):
     comp = list(tables["encoding"]["compression"])
     cases = []   # (coq text, description)
     # quotify_str and the lexing of its output
-    qs = strings[: env.budget(2500, 12000)]
+    qs = strings[: env.budget(4000, 16000)]
     for s, (st, q) in zip(qs, V.pmap(impl_quotify, qs, timeout=10, procs=PROCS)):
         if st != "ok":
             env.disagree("quotify", {"string": s}, "quoted text", f"{st}: {q}")
@@ -259,6 +262,55 @@ def correspondence(env, strings, tables):
     env.note("correspondence_cases_by_function", dist)
 
 
+def quotable(s):
+    """Inside the theorem's class (Model/Quote.v quotable_char): no NUL, carriage return or surrogate."""
+    return all(c not in "\0\r" and not 0xD800 <= ord(c) <= 0xDFFF for c in s)
+
+
+def safe_quotify(strs):
+    out = []
+    for s in strs:
+        try:
+            out.append(impl_quotify(s))
+        except Exception:  # noqa: BLE001  (the oracle reports a quotify that raises)
+            pass
+    return out
+
+
+def dictionary_stream(env):
+    """Strings holding two or three fragments of the dictionary harvested from the CURRENT sources
+    (vlib.nasty.source_dictionary), in every order, random filler around them.  Returns
+    (strings, parts-by-string, the strings built only from regex-derived fragments)."""
+    sd = nasty.source_dictionary(V.REPO, DICT_FILES)
+    frags = [f for f in sd["fragments"] if quotable(f)]
+    prio = [f for f in sd["from_regex"] if quotable(f)]
+    filler = ESC + ["b", "X", " ", "1", "#", "|", ";", "»"]
+    built = nasty.dictionary_strings(env.rng, frags, priority=prio, filler=filler,
+                                     pair_cap=env.budget(20000, 60000), n_triples=env.budget(4000, 30000))
+    parts = {}
+    for s, p in built:
+        parts.setdefault(s, p)
+    from_regex_only = [s for s, p in parts.items() if all(x in prio for x in p)]
+    n_parts = {}
+    for p in parts.values():
+        n_parts[len(p)] = n_parts.get(len(p), 0) + 1
+    env.note("dictionary_size", len(frags))
+    env.note("dictionary", {
+        "files": sd["by_file"], "unreadable_files": sd["unreadable"], "regex_patterns": sd["patterns"],
+        "fragments_from_regex": prio, "string_constants": len(sd["constants"]),
+        "fragments_outside_the_quotable_class_dropped": len(sd["fragments"]) - len(frags),
+        "fragment_length_distribution": dict(sorted((n, sum(1 for f in frags if len(f) == n)) for n in {len(f) for f in frags})),
+        "fragments_with_escape_relevant_or_non_ascii_char": sum(1 for f in frags if any(c in '\\`"\n' or ord(c) > 126 for c in f)),
+        "ordered_pairs_exhaustive": len(frags) ** 2 <= env.budget(20000, 60000),
+        "strings_by_number_of_fragments": dict(sorted(n_parts.items())),
+        "strings_from_regex_fragments_only": len(from_regex_only),
+        "string_length_distribution": dict(sorted((k, sum(1 for s in parts if len(s) // 10 * 10 == k)) for k in {len(s) // 10 * 10 for s in parts})),
+    })
+    if sd["unreadable"] or not frags:
+        env.proof_broken("the source dictionary could not be harvested", str(sd["unreadable"] or "no fragment found"))
+    return list(parts), parts, from_regex_only
+
+
 def chunks(lst, n):
     return [lst[i:i + n] for i in range(0, len(lst), n)]
 
@@ -269,10 +321,14 @@ def run(env):
                 "with dictionary compression off, and also on when s is printable ASCII; the stack must be exactly [s].  Exhaustive: all "
                 "strings of length <= 3 over the escape-relevant set {\\ ` \" ' newline a n x 0 λ}; all code-page strings of length <= 1 "
                 "(quick) / <= 2 (thorough); random strings to length 40 over the code page, over the escape-relevant set and over "
-                "printable ASCII; a sample through main.execute_vyxal.  Correspondence: quotify_str, the lexing of its output, "
+                "printable ASCII; strings built from the SOURCE DICTIONARY — every string constant of <= 12 characters and every literal "
+                "fragment of every regex pattern harvested on this run from the current lexer.py, parse.py, transpile.py and helpers.py — "
+                "holding two fragments (every ordered pair) or three (random triples in random order; all pairs and triples of the "
+                "regex-derived fragments also without filler) with random filler of 0-3 characters around them; a sample through "
+                "main.execute_vyxal.  Correspondence (all of it also on dictionary strings; the lexer model on every one of them, quoted): quotify_str, the lexing of its output, "
                 "transpile_token's STRING text with and without a stand-in dictionary, uncompress_dict, and py_dq_decode / pushed_string "
                 "against ast.literal_eval.  Non-trivial = the string contains a backslash, back-quote, double quote, newline or a "
-                "non-ASCII character; distinct by string.")
+                "non-ASCII character, or is built from dictionary fragments; distinct by string.")
     t = env.tables
     rng = env.rng
     cp = list(t["encoding"]["codepage"])
@@ -300,14 +356,23 @@ def run(env):
         else:
             strings.append("".join(rng.choice(ascii_chars + ["\\", "`", '"', "\\", "`"]) for _ in range(n)))
     strings = list(dict.fromkeys(strings))
+    n_plain = len(strings)
+    dict_strings, dict_parts, dict_regex_only = dictionary_stream(env)
+    strings = list(dict.fromkeys(strings + dict_strings))
 
     # 1. models against the implementation
-    sample_for_corr = strings[:n_esc] + [s for s in strings[n_esc:n_esc + n_cp] if len(s) == 1] + rng.sample(strings[n_esc:], min(len(strings) - n_esc, env.budget(1200, 9000)))
+    dict_sample = list(dict.fromkeys(dict_regex_only[:300] + rng.sample(dict_strings, min(len(dict_strings), env.budget(700, 3000)))))
+    sample_for_corr = strings[:n_esc] + [s for s in strings[n_esc:n_esc + n_cp] if len(s) == 1] + dict_sample \
+        + rng.sample(strings[n_esc:n_plain], min(n_plain - n_esc, env.budget(1200, 9000)))
     sample_for_corr = list(dict.fromkeys(sample_for_corr))
     correspondence(env, sample_for_corr, t)
-    quoted = [impl_quotify(s) for s in sample_for_corr[: env.budget(1200, 5000)]]
-    lexcorr.check(env, [(q, False) for q in dict.fromkeys(quoted)], name="lexquote")
-    transcorr.check(env, quoted[: env.budget(500, 2500)], name="transquote", shard=400)
+    quoted = safe_quotify(sample_for_corr[: env.budget(1200, 5000)])
+    # the lexer model meets every dictionary string: quoted (one STRING token expected) and, for a sample, bare as a program
+    dict_quoted = safe_quotify(dict_strings)
+    dict_bare = dict_regex_only[:300] + rng.sample(dict_strings, min(len(dict_strings), env.budget(1500, 6000)))
+    lexcorr.check(env, [(q, False) for q in dict.fromkeys(quoted + dict_quoted + dict_bare)], name="lexquote")
+    env.note("lexer_correspondence_dictionary_strings", {"quoted": len(dict_quoted), "bare": len(dict_bare)})
+    transcorr.check(env, quoted[: env.budget(500, 2500)] + safe_quotify(dict_sample[: env.budget(300, 1500)]), name="transquote", shard=400)
 
     # 2. the oracle
     counter = {}
@@ -320,16 +385,18 @@ def run(env):
             counter[cls] = counter.get(cls, 0) + 1
             env.fail({"string": s}, what, cls=cls)
     special = set('\\`"\n')
-    env.count(len(strings), (f"q:{s}" for s in strings if any(c in special or ord(c) > 126 for c in s)))
+    env.count(len(strings), (f"q:{s}" for s in strings if s in dict_parts or any(c in special or ord(c) > 126 for c in s)))
     env.note("strings_exhaustive_escape_set_len_le_3", n_esc)
     env.note("strings_exhaustive_codepage", n_cp)
-    env.note("strings_random", len(strings) - n_esc - n_cp)
+    env.note("strings_random", n_plain - n_esc - n_cp)
+    env.note("strings_from_source_dictionary", len(strings) - n_plain)
     env.note("random_length_distribution", dict(sorted(lens.items())))
     env.note("strings_run_with_compression_on", sum(1 for s in strings if printable_ascii(s)))
     env.note("oracle_failures_by_class", counter)
 
     # 3. a sample through main.execute_vyxal itself (flag D = compression off)
-    sample = [(s, "D") for s in strings[:n_esc:7]] + [(s, "D") for s in rng.sample(strings[n_esc:], env.budget(60, 400))]
+    sample = [(s, "D") for s in strings[:n_esc:7]] + [(s, "D") for s in rng.sample(strings[n_esc:n_plain], env.budget(60, 400))]
+    sample += [(s, "D") for s in dict_regex_only[:20] + rng.sample(dict_strings, min(len(dict_strings), env.budget(60, 400)))]
     sample += [(s, "") for s, _ in sample if printable_ascii(s)]
     for (s, flags), (st, val) in zip(sample, V.pmap(through_main, sample, timeout=60, procs=PROCS)):
         if st != "ok" or val[1] is not None or val[0] != [["str", s]]:
